@@ -75,6 +75,53 @@ theorem cli_nquads {env : Env} {senv : SEnv} (henv : EnvOK env senv) (hn : Names
   exact noNL_of_noEol (NQ.noEol_renderStmtBody _ st hwf)
 
 
+/-- **The command-line run, either format, any rule table shape.**  Without the token-safety hypothesis and for N-TRIPLES
+    as well as N-QUADS: the engine raises nowhere, and for every schedule the *set* of lines of the output file is exactly
+    the set of rendered statements that the generation rules prescribe (a statement may be written by more than one group:
+    finding C03_F1), each of them a well-formed statement of the grammar. -/
+theorem cli_set {env : Env} {senv : SEnv} (henv : EnvOK env senv) (hn : NamesOK senv)
+    (doc : Doc) (hfrag : FragmentOK senv doc = true) (htab : TablesOK senv doc = true) (hF4 : NoF4 senv doc = true)
+    (hok : GrammarOK senv doc = true)
+    (mode : PartMode) (ls : List Str) (hp : partitionLabels mode (normalizeDoc doc) = .ok ls)
+    (old : Str) (chunk buf : Nat) :
+    ∃ groups, groupResults env (withLabels (normalizeDoc doc) ls) = .ok groups ∧
+      (∀ x, x ∈ groups.flatten ↔ x ∈ evalDoc senv doc) ∧
+      (∀ x ∈ groups.flatten, ∃ st : NQ.Stmt, NQ.wfStmt st = true ∧ NQ.parseLine (x ++ ['.']) = some st ∧
+        x = NQ.renderStmtBody (shapeOf senv.fmt) st) ∧
+      ∀ sched, Interleaving (groups.map (workerWrites Gen.writerShape chunk buf)) sched →
+        ∀ l, l ∈ lines NL (cliFile Gen.mainShape old sched) ↔ ∃ x ∈ evalDoc senv doc, l = renderLine Gen.writerShape x := by
+  obtain ⟨out, hout, hiff⟩ := C01_refinement_partial henv hn doc hfrag htab hF4
+  have hall : AllOk env (normalizeDoc doc) := by
+    intro r hr
+    unfold evalAll at hout
+    cases hm : ((normalizeDoc doc).filter (·.asserted)).mapM (evalRule env (normalizeDoc doc)) with
+    | error e => simp [hm, bind, Except.bind] at hout
+    | ok parts => exact Py.mapM_ok_forall _ _ _ hm r hr
+  have hl := partitionLabels_length mode (normalizeDoc doc) ls hp
+  have hall' := (allOk_withLabels env (normalizeDoc doc) ls hl).mpr hall
+  have hg : ∀ l ∈ dedupFirst (((withLabels (normalizeDoc doc) ls).filter (·.asserted)).map (·.partition)),
+      ∃ g, evalGroup env (withLabels (normalizeDoc doc) ls) l = .ok g :=
+    fun l _ => let ⟨g, hg, _⟩ := evalGroup_ok env _ hall' l; ⟨g, hg⟩
+  have hmap := Py.mapM_ok_of_forall _ _ hg
+  have hsame := C02_eq_union env (normalizeDoc doc) mode ls hp
+  rw [evalGrouped_eq, hmap, hout] at hsame
+  simp only [bind, Except.bind, pure, Except.pure, SameOutcome] at hsame
+  have hmem : ∀ x, x ∈ (List.map (fun l => Py.okVal (evalGroup env (withLabels (normalizeDoc doc) ls) l))
+      (dedupFirst (((withLabels (normalizeDoc doc) ls).filter (·.asserted)).map (·.partition)))).flatten ↔ x ∈ evalDoc senv doc :=
+    fun x => (by simpa using hsame x : _ ↔ x ∈ out).trans (hiff x)
+  have hgram : ∀ x ∈ (List.map (fun l => Py.okVal (evalGroup env (withLabels (normalizeDoc doc) ls) l))
+      (dedupFirst (((withLabels (normalizeDoc doc) ls).filter (·.asserted)).map (·.partition)))).flatten,
+      ∃ st : NQ.Stmt, NQ.wfStmt st = true ∧ NQ.parseLine (x ++ ['.']) = some st ∧ x = NQ.renderStmtBody (shapeOf senv.fmt) st :=
+    fun x hx => C05_rules_lines_valid senv doc hok x ((hmem x).mp hx) (Or.inl rfl)
+  refine ⟨_, hmap, hmem, hgram, fun sched hs l => ?_⟩
+  have hperm := C04_cli_any_schedule old _ (fun g hg t ht => by
+    obtain ⟨st, hwf, _, rfl⟩ := hgram t (List.mem_flatten.mpr ⟨g, hg, ht⟩)
+    exact noNL_of_noEol (NQ.noEol_renderStmtBody _ st hwf)) chunk buf sched hs
+  rw [hperm.mem_iff, List.mem_map]
+  constructor
+  · rintro ⟨x, hx, rfl⟩; exact ⟨x, (hmem x).mp hx, rfl⟩
+  · rintro ⟨x, hx, rfl⟩; exact ⟨x, (hmem x).mpr hx, rfl⟩
+
 instance (k : MapType) (v : Str) (tt : TermType) : Decidable (SynMap k v tt) := by unfold SynMap EscapeFree; infer_instance
 instance (k : MapType) (v : Str) : Decidable (CleanMap k v) := by unfold CleanMap EscapeFree; infer_instance
 
